@@ -32,7 +32,7 @@ class Obl(object):
                  flags=None, timeout=600, mem_gb=8, paths=False, allow_fail=None,
                  bounds=None, units=None, stubs=None, kf=None, replay=True,
                  object_bits=None, checks="std", note="", assumptions=None,
-                 entry="harness", solver=None, expect_unreached=None):
+                 entry="harness", solver=None, expect_unreached=None, n_entries=0):
         self.name = name
         self.harness = harness
         self.defs = defs or []
@@ -55,6 +55,9 @@ class Obl(object):
         self.entry = entry
         self.solver = solver
         self.expect_unreached = expect_unreached   # regex: W: labels that this obligation prunes by construction
+        # n_entries > 0: the harness defines `void harness_scenario(int)`; the engine generates entry points
+        # harness_0 .. harness_<n-1> (constant argument each) and decides each with its own CBMC run on the same binary
+        self.n_entries = n_entries
 
 
 # ----------------------------------------------------------------------------
@@ -82,6 +85,30 @@ class MemGate(object):
 GATE = MemGate(TOTAL_MEM_GB)
 
 
+import signal, atexit
+_CHILDREN = set()
+_CH_LOCK = threading.Lock()
+
+
+def _kill_children(*a):
+    with _CH_LOCK:
+        for pid in list(_CHILDREN):
+            try:
+                os.killpg(pid, 9)
+            except Exception:
+                pass
+    if a:
+        os._exit(143)
+
+
+atexit.register(_kill_children)
+try:
+    signal.signal(signal.SIGTERM, _kill_children)
+    signal.signal(signal.SIGINT, _kill_children)
+except Exception:
+    pass
+
+
 def run(cmd, timeout=None, mem_gb=None, cwd=None, env=None):
     def pre():
         os.setsid()
@@ -94,6 +121,8 @@ def run(cmd, timeout=None, mem_gb=None, cwd=None, env=None):
     env["PATH"] = os.path.join(VERIF, "bin", "shim") + os.pathsep + env.get("PATH", "")
     p = subprocess.Popen(cmd, stdout=subprocess.PIPE, stderr=subprocess.PIPE,
                          cwd=cwd, env=env, preexec_fn=pre)
+    with _CH_LOCK:
+        _CHILDREN.add(p.pid)
     try:
         out, err = p.communicate(timeout=timeout)
         to = False
@@ -104,14 +133,25 @@ def run(cmd, timeout=None, mem_gb=None, cwd=None, env=None):
             pass
         out, err = p.communicate()
         to = True
+    with _CH_LOCK:
+        _CHILDREN.discard(p.pid)
     ru = resource.getrusage(resource.RUSAGE_CHILDREN)
     return p.returncode, out.decode("utf-8", "replace"), err.decode("utf-8", "replace"), time.time() - t0, to
 
 
 def compile_gb(ob, work, extra_defs=()):
     gb = os.path.join(work, ob.name + ("-kf" if extra_defs else "") + ".gb")
+    src = os.path.join(VERIF, "harness", ob.harness)
+    entry = ob.entry
+    if ob.n_entries:
+        wrap = os.path.join(work, ob.name + ("-kf" if extra_defs else "") + "-entries.c")
+        with open(wrap, "w") as f:
+            f.write('#include "%s"\n' % src)
+            for i in range(ob.n_entries):
+                f.write("void harness_%d(void) { harness_scenario(%d); }\n" % (i, i))
+        src, entry = wrap, "harness_0"
     cmd = ["goto-cc", "-DVERIF_CBMC"] + CC_FLAGS + ["-D" + d for d in ob.defs] + ["-D" + d for d in extra_defs] + \
-          [os.path.join(VERIF, "harness", ob.harness), "--function", ob.entry, "-o", gb]
+          [src, "--function", entry, "-o", gb]
     rc, out, err, dt, to = run(cmd, timeout=300)
     if rc != 0 or not os.path.exists(gb):
         return None, (out + err)[-4000:]
@@ -139,8 +179,8 @@ def build_unwindset(ob, gb):
     return ["--unwindset", ",".join(items)] if items else []
 
 
-def cbmc_cmd(ob, gb, trace=False, prop=None):
-    cmd = ["cbmc", gb, "--json-ui", "--verbosity", "8", "--unwinding-assertions", "--drop-unused-functions",
+def cbmc_cmd(ob, gb, trace=False, prop=None, entry=None):
+    cmd = ["cbmc", gb] + (["--function", entry] if entry else []) + ["--json-ui", "--verbosity", "8", "--unwinding-assertions", "--drop-unused-functions",
            "--no-malloc-may-fail", "--no-pointer-primitive-check",
            "--no-signed-overflow-check", "--no-undefined-shift-check"]
     if ob.checks == "nopointer":
@@ -292,7 +332,7 @@ NATIVE_FLAGS = ["-g", "-O0", "-fsanitize=address,undefined", "-fno-sanitize-reco
                 "-Wl,--unresolved-symbols=ignore-all"]
 
 
-def native_replay(ob, vals, outdir, extra_defs=()):
+def native_replay(ob, vals, outdir, extra_defs=(), entry=None):
     """Compile the same harness natively against current /repo sources and run with the counterexample values."""
     os.makedirs(outdir, exist_ok=True)
     hpath = os.path.join(VERIF, "harness", ob.harness)
@@ -301,7 +341,10 @@ def native_replay(ob, vals, outdir, extra_defs=()):
     write_inputs_c(vals, loader)
     main_c = os.path.join(outdir, "replay_main.c")
     with open(main_c, "w") as f:
-        f.write('#include "%s"\n#include "%s"\nVERIF_MAIN\n' % (hpath, loader))
+        f.write('#include "%s"\n#include "%s"\n' % (hpath, loader))
+        if entry:
+            f.write("void harness(void) { harness_scenario(%s); }\n" % entry.split("_")[-1])
+        f.write("VERIF_MAIN\n")
     exe = os.path.join(outdir, "replay.bin")
     cmd = ["gcc"] + NATIVE_FLAGS + CC_FLAGS + ["-D" + d for d in ob.defs] + ["-D" + d for d in extra_defs] + \
           [main_c, "-o", exe, "-lpthread", "-lrt", "-ldl"]
@@ -341,24 +384,40 @@ def run_obligation(ob, work, extra_defs=(), want_trace_for=None):
             res["detail"] = "goto-cc failed: " + err
             return res
         res["gb"] = gb
-        cmd = cbmc_cmd(ob, gb)
-        res["cmd"] = " ".join(cmd[:1] + ["<gb>"] + cmd[2:])
-        rc, out, errt, dt, to = run(cmd, timeout=ob.timeout, mem_gb=ob.mem_gb)
-        res["cbmc_s"] = round(dt, 2)
-        if to:
-            res["status"] = "timeout"
-            res["detail"] = "cbmc exceeded %ds" % ob.timeout
-            return res
-        props, msgs, stats = parse_cbmc(out)
+        entries = ["harness_%d" % i for i in range(ob.n_entries)] if ob.n_entries else [None]
+        props, stats = [], None
+        res["cbmc_s"] = 0.0
+        for ent in entries:
+            cmd = cbmc_cmd(ob, gb, entry=ent)
+            res["cmd"] = " ".join(cmd[:1] + ["<gb>"] + cmd[2:])
+            rc, out, errt, dt, to = run(cmd, timeout=ob.timeout, mem_gb=ob.mem_gb)
+            res["cbmc_s"] = round(res["cbmc_s"] + dt, 2)
+            if to:
+                res["status"] = "timeout"
+                res["detail"] = "cbmc exceeded %ds%s" % (ob.timeout, (" in entry " + ent) if ent else "")
+                return res
+            eprops, msgs, estats = parse_cbmc(out)
+            if estats.get("error") and not eprops:
+                res["stats"] = estats
+                res["detail"] = "cbmc%s: %s | %s" % ((" entry " + ent) if ent else "", estats["error"], errt[-500:])
+                if rc in (-9, 137) or "out of memory" in (errt + out).lower() or "bad_alloc" in (errt + out):
+                    res["status"] = "oom"
+                return res
+            if not eprops:
+                res["detail"] = "cbmc produced no property results (rc=%s): %s" % (rc, (errt or out)[-800:])
+                return res
+            for p in eprops:
+                p["entry"] = ent
+            props += eprops
+            if stats is None:
+                stats = estats
+            else:
+                for k in ("symex_s", "solver_s", "steps", "vccs", "remaining_vccs", "paths"):
+                    stats[k] = (stats.get(k) or 0) + (estats.get(k) or 0)
+                for k in ("vars", "clauses"):
+                    stats[k] = max(stats.get(k) or 0, estats.get(k) or 0)
         res["stats"] = stats
-        if stats.get("error") and not props:
-            res["detail"] = "cbmc: %s | %s" % (stats["error"], errt[-500:])
-            if rc in (-9, 137) or "out of memory" in (errt + out).lower() or "bad_alloc" in (errt + out):
-                res["status"] = "oom"
-            return res
-        if not props:
-            res["detail"] = "cbmc produced no property results (rc=%s): %s" % (rc, (errt or out)[-800:])
-            return res
+        res["entries"] = len(entries)
         by = {"P": [], "W": [], "U": [], "O": [], "A": [], "M": []}
         for p in props:
             by[classify(p)].append(p)
@@ -375,23 +434,26 @@ def run_obligation(ob, work, extra_defs=(), want_trace_for=None):
             by["W"] = [p for p in by["W"] if not eu.search(p["description"])]
         unreached_W = [p for p in by["W"] if p["status"] != "FAILURE"]
         other = [p for p in props if p["status"] not in ("SUCCESS", "FAILURE")]
+        if failed_P or failed_M:
+            # CBMC reports checks that follow a failed built-in check on the same path as UNKNOWN: the failure is what counts
+            other = [p for p in other if p["status"] != "UNKNOWN"]
         res["witness_total"] = len(by["W"])
         res["witness_reached"] = len(by["W"]) - len(unreached_W)
         res["ub_notes"] = ["%s %s (%s:%s)" % (p["property"], p["description"], os.path.basename(p["file"]), p["line"])
                            for p in by["O"] if p["status"] == "FAILURE"]
         def brief(p):
-            return {"property": p["property"], "description": p["description"],
+            return {"property": p["property"], "description": p["description"], "entry": p.get("entry"),
                     "site": "%s:%s:%s" % (p["file"].replace(REPO + "/", ""), p["function"], p["line"])}
         if failed_U:
             res["status"] = "bound"
             res["detail"] = "unwinding assertion failed (bound too small): " + ", ".join(p["property"] for p in failed_U[:5])
             res["failed"] = [brief(p) for p in failed_U]
-        elif other:
-            res["status"] = "error"
-            res["detail"] = "undecided properties: " + ", ".join("%s=%s" % (p["property"], p["status"]) for p in other[:5])
         elif failed_P or failed_M:
             res["status"] = "fail"
             res["failed"] = [brief(p) for p in failed_P + failed_M]
+        elif other:
+            res["status"] = "error"
+            res["detail"] = "undecided properties: " + ", ".join("%s=%s" % (p["property"], p["status"]) for p in other[:5])
         elif not by["W"]:
             res["status"] = "vacuous"
             res["detail"] = "harness has no reachability witness"
@@ -409,8 +471,8 @@ def run_obligation(ob, work, extra_defs=(), want_trace_for=None):
         res["wall_s"] = round(time.time() - t0, 2)
 
 
-def trace_for(ob, gb, prop_id):
-    cmd = cbmc_cmd(ob, gb, trace=True, prop=prop_id)
+def trace_for(ob, gb, prop_id, entry=None):
+    cmd = cbmc_cmd(ob, gb, trace=True, prop=prop_id, entry=entry)
     rc, out, err, dt, to = run(cmd, timeout=ob.timeout * 2, mem_gb=ob.mem_gb)
     if to:
         return None
@@ -534,7 +596,7 @@ def run_check(pid, tier, obligations, meta):
                     defs = src["defs"][len(ob.defs):] if src is not r else []
                     gb = src.get("gb")
                     f0 = src["failed"][0]
-                    tr = trace_for(ob, gb, f0["property"])
+                    tr = trace_for(ob, gb, f0["property"], f0.get("entry"))
                     rdir = os.path.join(outdir, "replay-" + ob.name)
                     os.makedirs(rdir, exist_ok=True)
                     info = {"obligation": ob.name, "failed": src["failed"], "defs": src["defs"]}
@@ -544,7 +606,7 @@ def run_check(pid, tier, obligations, meta):
                             json.dump(tr, f)
                         info["inputs"] = {k: v.get("data") for k, v in vals.items()}
                         if ob.replay:
-                            rp = native_replay(ob, vals, rdir, extra_defs=defs)
+                            rp = native_replay(ob, vals, rdir, extra_defs=defs, entry=f0.get("entry"))
                             info["replay"] = rp
                     with open(os.path.join(rdir, "violation.json"), "w") as f:
                         json.dump(info, f, indent=1, default=str)
